@@ -131,6 +131,27 @@ class CFG:
                 pass
 
     # ------------------------------------------------------------------ construction
+    _NORETURN = {}
+
+    def _helper_never_returns(self, call):
+        """`self.<helper>(...)` where the helper (a method of the same class) has no normal exit: every path ends in
+        sys.exit / raise.  One level only (the helper's own CFG is built without this resolution)."""
+        if self.model is None or not isinstance(call.func, ast.Attribute) or dotted(call.func.value) != 'self':
+            return False
+        cls = getattr(self.func, 'parent', None)
+        while cls is not None and not isinstance(cls, ast.ClassDef):
+            cls = getattr(cls, 'parent', None)
+        if cls is None:
+            return False
+        helper = next((n for n in cls.body if isinstance(n, ast.FunctionDef) and n.name == call.func.attr), None)
+        if helper is None or helper is self.func:
+            return False
+        key = id(helper)
+        if key not in CFG._NORETURN:
+            h = CFG(helper, None, self.module)
+            CFG._NORETURN[key] = h.exit not in h.reach_from_entry()
+        return CFG._NORETURN[key]
+
     def _new(self, kind, ast_=None, label=''):
         n = Node(len(self.nodes), kind, ast_, label)
         self.nodes.append(n)
@@ -188,7 +209,8 @@ class CFG:
             return [], [Jump('break', [(n, 'n')])]
         if isinstance(st, ast.Continue):
             return [], [Jump('continue', [(n, 'n')])]
-        if isinstance(st, ast.Expr) and isinstance(st.value, ast.Call) and dotted(st.value.func) in ('sys.exit', 'os._exit', 'exit'):
+        if isinstance(st, ast.Expr) and isinstance(st.value, ast.Call) and (
+                dotted(st.value.func) in ('sys.exit', 'os._exit', 'exit') or self._helper_never_returns(st.value)):
             # never returns normally
             jumps.append(Jump('raise', [(n, 'exc')], frozenset({'builtins.SystemExit'})))
             return [], jumps
